@@ -94,6 +94,7 @@ type World struct {
 	AppState   *consensus.AppState
 	EthOpt     ethchain.ChainDriverOption
 	GenTime    time.Time
+	byAddr     map[string]*Account
 }
 
 // ValidatorKeys is the key material of one (potential) validator node.
@@ -313,4 +314,28 @@ func (w *World) AllValidatorKeys() []*ValidatorKeys {
 func BigNue(olt int64) *big.Int {
 	x := big.NewInt(olt)
 	return x.Mul(x, new(big.Int).Exp(big.NewInt(10), big.NewInt(18), nil))
+}
+
+// Lookup finds the simulated account (any key the run knows) with the given address.
+func (w *World) Lookup(addr keys.Address) *Account {
+	if w.byAddr == nil {
+		w.byAddr = map[string]*Account{}
+		for _, u := range w.Users {
+			w.byAddr[string(u.Addr)] = u
+		}
+		for _, u := range w.EthUsers {
+			w.byAddr[string(u.Addr)] = u
+		}
+		for _, vk := range w.AllValidatorKeys() {
+			w.byAddr[string(vk.NodeKey.Addr)] = vk.NodeKey
+			w.byAddr[string(vk.ValKey.Addr)] = vk.ValKey
+		}
+	}
+	return w.byAddr[string(addr)]
+}
+
+// Register makes an extra account known to Lookup.
+func (w *World) Register(a *Account) {
+	w.Lookup(nil)
+	w.byAddr[string(a.Addr)] = a
 }
